@@ -29,11 +29,11 @@ with body :=
        (sts : steps)
 with steps := SNil | SCons (s : step) (r : steps)
 with step :=
-| SCall (line : nat) (callee : fn) (args : list expr)            (* plain call g(...) or data-function call *)
+| SCall (line eline : nat) (callee : fn) (args : list expr)      (* plain call g(...) or data-function call; first / last line *)
 | SRef (line : nat) (callee : fn) (exec : bool)                   (* first by-name mention of a function: analysed as a
                                                                      zero-argument call; exec = it is really called: apply(g) *)
 | SApply (callee : fn)                                            (* apply(g) for an already mentioned g: executed, not analysed *)
-| SKeep (line : nat) (path : bytes) (callee : fn)
+| SKeep (line eline : nat) (path : bytes) (callee : fn)
         (pos : list (expr * aarg)) (kw : list (bytes * (expr * aarg)))   (* dds.keep(path, g, *pos, **kw) *)
 | SLoad (path : bytes).                                           (* dds.load(path) *)
 
